@@ -35,6 +35,21 @@ Theorem md009_exact : forall c ls lvs ln,
 Proof. exact md009_exact_l. Qed.
 Print Assumptions md009_exact.
 
+(* MD010 reports exactly the lines that contain a tab; with code_blocks off exactly those of them that lie outside code
+   blocks, never a content line of a code block (only the fence lines of a fenced block are left open) *)
+Theorem md010_exact : forall ls lvs ln,
+  In ln (must (md010 true ls lvs)) <-> 1 <= ln <= length ls /\ has_tab_c (line_at ls ln) = true.
+Proof. exact md010_exact_l. Qed.
+Print Assumptions md010_exact.
+
+Theorem md010_code_blocks_off : forall ls lvs ln,
+  (forall l, leaf_at lvs ln = Some l -> is_code l = true ->
+     ~ In ln (must (md010 false ls lvs)) /\ (In ln (open_ (md010 false ls lvs)) -> is_fenced l = true /\ (ln = lsl l \/ ln = lel l))) /\
+  ((forall l, leaf_at lvs ln = Some l -> is_code l = false) ->
+     (In ln (must (md010 false ls lvs)) <-> 1 <= ln <= length ls /\ has_tab_c (line_at ls ln) = true)).
+Proof. intros ls lvs ln. split; [intros l E C; exact (md010_code_exempt_l ls lvs ln l E C) | apply md010_outside_code_l]. Qed.
+Print Assumptions md010_code_blocks_off.
+
 (* MD012 only ever reports blank lines of the document *)
 Theorem md012_reports_blank_lines : forall maxb ls lvs tail_in_code nlines ln, In ln (must (md012 maxb ls lvs tail_in_code nlines)) -> blank_at lvs ln = true /\ 1 <= ln <= length ls.
 Proof. exact md012_blank_l. Qed.
